@@ -189,6 +189,7 @@ type redactStep struct {
 	Kind   string      `json:"kind"`
 	Params [][2]string `json:"params"`
 	TLS    string      `json:"tls,omitempty"`
+	TTL    string      `json:"ttl,omitempty"` // submit: a time-to-live as written (malformed values make the submission fail late)
 	Unit   int         `json:"unit"`
 }
 
@@ -247,6 +248,9 @@ func redactHistory(raw json.RawMessage) interface{} {
 			cfg := map[string]interface{}{"command": "work", "subcommand": "submit", "node": "far-away", "worktype": "anything"}
 			if st.TLS != "" {
 				cfg["tlsclient"] = st.TLS
+			}
+			if st.TTL != "" {
+				cfg["ttl"] = st.TTL
 			}
 			for _, kv := range st.Params {
 				k, v := string(verifUnhex(kv[0])), string(verifUnhex(kv[1]))
@@ -490,6 +494,14 @@ func redactGen(v *verifRun) {
 			}
 		}
 		h.Steps = append(h.Steps, redactStep{Kind: "list"})
+		v.do(redactApply, "history", h)
+	}
+	// a submission that fails late (a malformed time-to-live is noticed after the unit has been stored): whatever is
+	// left behind must not show its secrets
+	for _, ttl := range []string{"10 minutes", "soon", "1h"} {
+		h := redactHistArgs{Steps: []redactStep{
+			{Kind: "submit", TLS: "tlsclient", TTL: ttl, Params: [][2]string{{hx("secret_token"), hx("VALUE-TTL-S1")}, {hx("plain"), hx("VALUE-TTL-P1")}}},
+			{Kind: "status", Unit: 0}, {Kind: "list"}, {Kind: "restart"}, {Kind: "status", Unit: 0}, {Kind: "list"}}}
 		v.do(redactApply, "history", h)
 	}
 }
